@@ -339,7 +339,9 @@ func mockShape(d *tc.Dest, mock string) (shape []string, ok bool) {
 	}
 	if tp := named.TypeParams(); tp != nil {
 		for i := 0; i < tp.Len(); i++ {
-			shape = append(shape, fmt.Sprintf("tparam %d %s %s", i, tp.At(i).Obj().Name(), types.TypeString(tp.At(i).Constraint(), fullPathQualifier)))
+			// the *name* of a type parameter is a spelling (moq invents one for blank type parameters and avoids import
+			// qualifiers registered so far, which differ between a joint and a solo run): position and constraint count
+			shape = append(shape, fmt.Sprintf("tparam %d %s", i, types.TypeString(tp.At(i).Constraint(), fullPathQualifier)))
 		}
 	}
 	st, isStruct := named.Underlying().(*types.Struct)
